@@ -138,6 +138,28 @@ impl<B: Buffer> Decoder<B> {
     pub fn reset(&mut self) -> usize {
         self.decoder.reset(&mut self.buf)
     }
+
+    /// Read-only snapshot of the decoder state (verification hook, coverage accounting only).
+    #[cfg(feature = "verif-hooks")]
+    pub fn verif_state(&self) -> VerifDecoderState {
+        self.decoder.verif_state(self.buf.len())
+    }
+}
+
+/// Read-only snapshot of the decoder state (verification hook, coverage accounting only).
+#[cfg(feature = "verif-hooks")]
+#[derive(Debug, Clone, Copy, PartialEq, Eq, Hash)]
+pub struct VerifDecoderState {
+    /// 0 = looking for start, 1 = normal, 2 = esc chars, 3 = esc payload, 4 = done
+    pub phase: u8,
+    /// matched start bytes / number of 0x1b seen / escape payload step
+    pub aux: u8,
+    /// number of withheld zero bytes
+    pub zero_cache: u8,
+    /// bytes counted for the current transmission
+    pub raw_msg_len: usize,
+    /// bytes currently in the output buffer
+    pub buf_len: usize,
 }
 
 pub(crate) struct NonOwningDecoder {
@@ -446,6 +468,26 @@ impl NonOwningDecoder {
 
     fn is_done(&self) -> bool {
         matches!(self.state, DecodeState::Done)
+    }
+
+    #[cfg(feature = "verif-hooks")]
+    fn verif_state(&self, buf_len: usize) -> VerifDecoderState {
+        let (phase, aux) = match self.state {
+            DecodeState::LookingForMessageStart {
+                num_init_seq_bytes, ..
+            } => (0, num_init_seq_bytes),
+            DecodeState::ParsingNormal => (1, 0),
+            DecodeState::ParsingEscChars(n) => (2, n),
+            DecodeState::ParsingEscPayload { step, .. } => (3, step),
+            DecodeState::Done => (4, 0),
+        };
+        VerifDecoderState {
+            phase,
+            aux,
+            zero_cache: self.zero_cache,
+            raw_msg_len: self.raw_msg_len,
+            buf_len,
+        }
     }
 }
 
